@@ -145,13 +145,17 @@ pub fn run_enc(ty_s: &str, val_s: &str, expected: &str) -> CaseResult {
 pub fn run_dec(ty_s: &str, hex_s: &str, expected: &str) -> CaseResult {
     let Some(ty) = parse_ty(ty_s) else { return bad("bad-type") };
     let Some(bytes) = unhex(hex_s) else { return bad("bad-hex") };
+    let t0 = std::time::Instant::now();
     let (actual, got) = decode_obs(&ty, &bytes);
+    let elapsed = t0.elapsed();
     let expected_c = canon_expected(&ty, expected);
     let diff = if actual != expected_c { Some(format!("decode: model={} impl={}", expected_c, actual)) } else { None };
     // implementation-side oracle (C11): never a panic; ok => consumed a prefix; re-encoding gives that prefix
     let mut oracle = None;
     if actual == "panic" { oracle = Some("decoder panicked".to_string()); }
     if actual == "err-empty-message" { oracle = Some("error renders as empty message".to_string()); }
+    // cost governed by the input length, not by announced sizes: generous bound of 0.5 s for <= 64 KiB of input
+    if elapsed.as_millis() > 500 && bytes.len() <= 65536 { oracle = Some(format!("decoding {} bytes took {} ms", bytes.len(), elapsed.as_millis())); }
     if let Some((v, rem)) = &got {
         if *rem > bytes.len() { oracle = Some("remaining exceeds input".to_string()); }
     let _ = v;
@@ -175,4 +179,41 @@ fn parse_val_lenient<'a>(ty: &Ty, s: &'a str) -> Option<(Value, &'a str)> { pars
 
 fn bad(what: &str) -> CaseResult {
     CaseResult { actual: what.to_string(), diff: Some(format!("runner could not parse case: {}", what)), oracle: None, nontrivial: false }
+}
+
+/// `skip <fam> <hex> <expected>`: Decoder::skip_tagged_fields
+pub fn run_skip(hex_s: &str, expected: &str) -> CaseResult {
+    let Some(bytes) = unhex(hex_s) else { return bad("bad-hex") };
+    let r = catch_unwind(AssertUnwindSafe(|| {
+        let mut d = Decoder::new(SliceInputSource::from(bytes.as_slice()));
+        match d.skip_tagged_fields() { Ok(()) => format!("ok {}", d.remaining()), Err(e) => { let _ = e.to_string(); "err".to_string() } }
+    }));
+    let actual = r.unwrap_or_else(|_| "panic".to_string());
+    let diff = if actual != expected { Some(format!("skip_tagged_fields: model={} impl={}", expected, actual)) } else { None };
+    let oracle = if actual == "panic" { Some("skip_tagged_fields panicked".to_string()) } else { None };
+    CaseResult { nontrivial: actual.starts_with("ok") || bytes.len() > 1, actual, diff, oracle }
+}
+
+fn xs(s: &str) -> String { format!("x{}", if s.is_empty() { String::new() } else { hex(s.as_bytes()) }) }
+
+/// `reply <fam> <hex> <expected>`: the two sequences of `handle_generator_response`
+pub fn run_reply(hex_s: &str, expected: &str) -> CaseResult {
+    use crate::definition_types::{Diagnostic, DiagnosticLevel, GeneratedFile};
+    let Some(bytes) = unhex(hex_s) else { return bad("bad-hex") };
+    let r = catch_unwind(AssertUnwindSafe(|| {
+        let mut d = Decoder::new(SliceInputSource::from(bytes.as_slice()));
+        let files: Result<Vec<GeneratedFile>, _> = d.decode();
+        let files = match files { Ok(f) => f, Err(e) => { let _ = e.to_string(); return "err".to_string(); } };
+        let diags: Result<Vec<Diagnostic>, _> = d.decode();
+        let diags = match diags { Ok(f) => f, Err(e) => { let _ = e.to_string(); return "err".to_string(); } };
+        let fs: Vec<String> = files.iter().map(|f| format!("{}:{}", xs(&f.path), xs(&f.contents))).collect();
+        let ds: Vec<String> = diags.iter().map(|g| format!("{}:{}:{}",
+            match g.level { DiagnosticLevel::Info => 0, DiagnosticLevel::Warning => 1, DiagnosticLevel::Error => 2 },
+            xs(&g.message), g.source.as_ref().map_or("-".to_string(), |s| xs(s)))).collect();
+        format!("ok [{}] [{}] {}", fs.join(";"), ds.join(";"), d.remaining())
+    }));
+    let actual = r.unwrap_or_else(|_| "panic".to_string());
+    let diff = if actual != expected { Some(format!("reply: model={} impl={}", expected, actual)) } else { None };
+    let oracle = if actual == "panic" { Some("reply decoding panicked".to_string()) } else { None };
+    CaseResult { nontrivial: actual.starts_with("ok") || bytes.len() > 1, actual, diff, oracle }
 }
